@@ -1736,6 +1736,15 @@ impl<'p, C: SimCfg> World<'p, C> {
                 });
                 if plan.horizon_us >= lv.deadline_us && (lv.require_running || all_running) {
                     self.now = self.now.max(lv.deadline_us);
+                    // slow is not wedged: with a window of 0 or 1 a frame costs a round trip over the
+                    // slowest link between live nodes plus a tick at either end, and the measuring
+                    // interval (the second half of the window) may hold only a few of those. A wedge
+                    // advances none.
+                    let live = |i: usize| self.nodes.get(i).is_some_and(|n| n.alive);
+                    let slowest_link = plan.links.iter().filter(|l| live(l.from) && live(l.to)).map(|l| l.base_us + l.jitter_us).max().unwrap_or(0);
+                    let slowest_tick = plan.nodes.iter().enumerate().filter(|(i, _)| live(*i)).map(|(_, n)| n.tick.period_us + n.tick.jitter_us).max().unwrap_or(0);
+                    let half = (lv.deadline_us - lv.heal_us) / 2;
+                    let slow_floor = ((half / (2 * slowest_link + 2 * slowest_tick).max(1)) as i32).max(1);
                     for i in 0..self.nodes.len() {
                         if !self.nodes[i].alive || (!lv.nodes.is_empty() && !lv.nodes.contains(&i)) {
                             continue;
@@ -1751,7 +1760,7 @@ impl<'p, C: SimCfg> World<'p, C> {
                         }
                         if !running {
                             self.violate("c05.not_running", i, g, format!("node {i} is still Synchronizing {} ms after the last fault", (self.now - lv.heal_us) / 1000));
-                        } else if g - at_heal < lv.min_frames {
+                        } else if g - at_heal < lv.min_frames.min(slow_floor) {
                             // a spectator that fell more than its 60-slot ring behind is told so and
                             // can never resume: reported under its own class
                             let class = if self.nodes[i].last_too_far { "c05.spectator_too_far_behind" } else { "c05.wedged" };
@@ -1764,7 +1773,7 @@ impl<'p, C: SimCfg> World<'p, C> {
                                     g - at_heal,
                                     (lv.deadline_us - lv.heal_us) / 2000,
                                     (lv.deadline_us - lv.heal_us) / 1000,
-                                    lv.min_frames
+                                    lv.min_frames.min(slow_floor)
                                 ),
                             );
                         } else if let Sess::Spec(s) = &self.nodes[i].sess {
